@@ -403,7 +403,12 @@ func parent(prop string, scs []Scenario) {
 	}
 	if len(seqIdx) > 3 {
 		var err error
-		seqDone, err = runSeqWorkers(prop, seqIdx, evid.Workers(), dl)
+		// the grid points get at most half of the budget when there are explored scenarios as well
+		seqDl := dl
+		if len(seqIdx) < len(scs) {
+			seqDl = time.Now().Add(time.Until(dl) / 2)
+		}
+		seqDone, err = runSeqWorkers(prop, seqIdx, evid.Workers(), seqDl)
 		if err != nil {
 			evid.EngineError(prop, "%v", err)
 		}
